@@ -99,9 +99,50 @@ fn write_replay(prop: &str, world: &str, seed: u64, idx: u64, class: &str, detai
     let v = json!({
         "property": prop, "world": world, "violation": class, "detail": detail,
         "seed": seed, "case_index": idx, "case": case,
+        "flavour": if plain_flavour(idx) { "plain" } else { "checked" },
     });
     let _ = std::fs::write(&path, serde_json::to_string_pretty(&v).unwrap());
     path
+}
+
+// ------------------------------------------------------------------ K3: build flavour
+//
+// The simulator is built twice from the same sources: "checked" (release with debug assertions and
+// overflow checks: what `cargo test` exercises) and "plain" (release without them: what users ship).
+// Which build executes a case is a function of the case index alone (one in four runs in the plain
+// build), so a verdict never depends on the number of workers; replay files record the flavour.
+
+fn plain_flavour(idx: u64) -> bool {
+    idx % 4 == 3 && !single_flavour()
+}
+
+fn single_flavour() -> bool {
+    std::env::var("VERIF_SINGLE_FLAVOUR").is_ok()
+}
+
+/// rank of `idx` among the indices of its own flavour
+fn flavour_rank(idx: u64) -> u64 {
+    if single_flavour() {
+        idx
+    } else if idx % 4 == 3 {
+        idx / 4
+    } else {
+        idx - (idx + 1) / 4
+    }
+}
+
+fn this_build_is_plain() -> bool {
+    !cfg!(debug_assertions)
+}
+
+fn exe_for(plain: bool) -> std::path::PathBuf {
+    let me = std::env::current_exe().unwrap();
+    if plain == this_build_is_plain() {
+        return me;
+    }
+    // target/release/sim <-> target/plain/sim
+    let dir = me.parent().and_then(|d| d.parent()).map(|d| d.to_path_buf()).unwrap_or_default();
+    dir.join(if plain { "plain" } else { "release" }).join("sim")
 }
 
 // ------------------------------------------------------------------ worker
@@ -111,7 +152,6 @@ fn worker(args: &[String]) -> i32 {
     let thorough = args[1] == "thorough";
     let seed: u64 = args[2].parse().unwrap();
     let i: u64 = args[3].parse().unwrap();
-    let w: u64 = args[4].parse().unwrap();
     let ncases: u64 = args[5].parse().unwrap();
     let start: u64 = args[6].parse().unwrap();
     // protocol goes to a private fd; stdout (html5ever's profile output) goes to /dev/null
@@ -138,13 +178,19 @@ fn worker(args: &[String]) -> i32 {
     let mut n_viol = 0;
     let known = registry::load_known_findings(prop);
     let open_toggles: Vec<String> = known.iter().filter(|k| k.status == "open").filter_map(|k| k.toggle.clone()).collect();
-    let mut idx = start.max(i);
-    // align to this worker's stride
-    while idx % w != i % w {
-        idx += 1;
-    }
+    let mut idx = start;
     let mut samples_sent = 0;
+    let w = 1u64; // (the loop below advances by one index and skips what is not this worker's)
+    let lanes: u64 = args[4].parse().unwrap();
     while idx < ncases {
+        // this worker's share: the indices of its build flavour whose rank among them falls in its lane
+        if plain_flavour(idx) != this_build_is_plain() && !single_flavour() || flavour_rank(idx) % lanes != i % lanes {
+            idx += 1;
+            continue;
+        }
+        if this_build_is_plain() {
+            stats.inc("K3_cases_run_in_the_plain_release_build");
+        }
         let _ = writeln!(proto, "S {idx}");
         let mut rng = Rng::for_case(seed, domain(prop), idx);
         let case = world.gen(&mut rng, thorough);
@@ -230,7 +276,8 @@ fn worker(args: &[String]) -> i32 {
                         case.clone()
                     };
                     let detail = format!("panic at {loc}: {msg}");
-                    let path = write_replay(prop, world.world_name(), seed, idx, class, &detail, &min, "viol");
+                    // beyond the third violation of a worker only count (no file)
+                    let path = if n_viol <= 3 { write_replay(prop, world.world_name(), seed, idx, class, &detail, &min, "viol") } else { String::new() };
                     let _ = writeln!(proto, "V {idx} 0 0 {}", json!({"class": class, "detail": detail, "replay": path}));
                 } else {
                     let _ = writeln!(proto, "P {idx} {}", json!({"msg": msg, "loc": loc}));
@@ -260,10 +307,29 @@ struct WorkerState {
     last_done: Option<u64>,
 }
 
+/// Worker slot `i` of `w`: the first `checked_lanes(w)` slots run the checked build, the others the plain one.
+fn checked_lanes(w: usize) -> usize {
+    if single_flavour() {
+        w
+    } else {
+        (w - (w / 4).max(1)).max(1)
+    }
+}
+
+fn total_slots(w: usize) -> usize {
+    if single_flavour() {
+        w
+    } else {
+        checked_lanes(w) + (w / 4).max(1)
+    }
+}
+
 fn spawn_worker(prop: &str, tier: &str, seed: u64, i: usize, w: usize, ncases: u64, start: u64, tx: &mpsc::Sender<Msg>) -> Child {
-    let exe = std::env::current_exe().unwrap();
+    let nc = checked_lanes(w);
+    let (plain, lane, lanes) = if i < nc { (this_build_is_plain() && single_flavour(), i, nc) } else { (true, i - nc, total_slots(w) - nc) };
+    let exe = exe_for(plain);
     let mut child = Command::new(exe)
-        .args(["worker", prop, tier, &seed.to_string(), &i.to_string(), &w.to_string(), &ncases.to_string(), &start.to_string()])
+        .args(["worker", prop, tier, &seed.to_string(), &lane.to_string(), &lanes.to_string(), &ncases.to_string(), &start.to_string()])
         .stdin(Stdio::null())
         .stdout(Stdio::piped())
         .stderr(Stdio::null())
@@ -304,7 +370,7 @@ fn shrink_budget(case: &Value, base: usize) -> usize {
 
 fn run_single_case_subprocess(prop: &str, tier: &str, seed: u64, idx: u64, timeout: Duration) -> Option<i32> {
     // Some(code) if it finished, None on timeout
-    let exe = std::env::current_exe().unwrap();
+    let exe = exe_for(plain_flavour(idx));
     let mut child = Command::new(exe)
         .args(["worker", prop, tier, &seed.to_string(), "0", "1", &(idx + 1).to_string(), &idx.to_string()])
         .stdin(Stdio::null())
@@ -330,7 +396,7 @@ fn run_single_case_subprocess(prop: &str, tier: &str, seed: u64, idx: u64, timeo
 }
 
 /// Does replaying `case` in a fresh process kill that process (signal / abnormal exit)?
-fn replay_kills_process(prop: &str, world_name: &str, case: &Value, timeout: Duration) -> bool {
+fn replay_kills_process(prop: &str, world_name: &str, case: &Value, timeout: Duration, plain: bool) -> bool {
     let dir = format!("{VERIF}/replays/tmp");
     let _ = std::fs::create_dir_all(&dir);
     let path = format!("{dir}/min-{}.json", std::process::id());
@@ -338,7 +404,7 @@ fn replay_kills_process(prop: &str, world_name: &str, case: &Value, timeout: Dur
     if std::fs::write(&path, v.to_string()).is_err() {
         return false;
     }
-    let exe = std::env::current_exe().unwrap();
+    let exe = exe_for(plain);
     let mut child = match Command::new(exe).args(["replay-inner", &path]).stdin(Stdio::null()).stdout(Stdio::null()).stderr(Stdio::null()).spawn() {
         Ok(c) => c,
         Err(_) => return false,
@@ -363,7 +429,7 @@ fn replay_kills_process(prop: &str, world_name: &str, case: &Value, timeout: Dur
 }
 
 /// Greedy minimisation of a case that kills the worker: every candidate is judged in a subprocess.
-fn minimise_crash(world: &dyn World, prop: &str, case: Value, budget: usize) -> Value {
+fn minimise_crash(world: &dyn World, prop: &str, case: Value, budget: usize, plain: bool) -> Value {
     let mut cur = case;
     let mut used = 0;
     loop {
@@ -373,7 +439,7 @@ fn minimise_crash(world: &dyn World, prop: &str, case: Value, budget: usize) -> 
                 return cur;
             }
             used += 1;
-            if replay_kills_process(prop, world.world_name(), &c, Duration::from_secs(20)) {
+            if replay_kills_process(prop, world.world_name(), &c, Duration::from_secs(20), plain) {
                 cur = c;
                 progressed = true;
                 break;
@@ -407,7 +473,11 @@ fn check(args: &[String]) -> i32 {
     println!("check property={prop} tier={tier} seed={seed} cases={ncases} workers={w}");
 
     let (tx, rx) = mpsc::channel::<Msg>();
-    let mut workers: Vec<WorkerState> = (0..w)
+    if !single_flavour() && !exe_for(true).exists() {
+        eprintln!("HARNESS-ERROR: the plain-release build of the simulator ({}) is missing (run ./check build)", exe_for(true).display());
+        return 2;
+    }
+    let mut workers: Vec<WorkerState> = (0..total_slots(w))
         .map(|i| WorkerState { child: spawn_worker(&prop, &tier, seed, i, w, ncases, 0, &tx), current: None, done: false, next_after_crash: 0, last_done: None })
         .collect();
 
@@ -537,7 +607,7 @@ fn check(args: &[String]) -> i32 {
                         if !hung_cases.contains(&idx) {
                             crashed_cases.push((idx, format!("{:?}", status)));
                         }
-                        let next = idx + w as u64;
+                        let next = idx + 1;
                         workers[i].next_after_crash = next;
                         crash_restarts += 1;
                         if next < ncases && crash_restarts <= 12 {
@@ -549,7 +619,7 @@ fn check(args: &[String]) -> i32 {
                         // died between two cases (e.g. heap corruption noticed by the allocator while
                         // the harness was cleaning up): attribute it to the case that had just finished
                         crashed_cases.push((last, format!("{:?} after the case had been judged", status)));
-                        let next = last + w as u64;
+                        let next = last + 1;
                         crash_restarts += 1;
                         if next < ncases && crash_restarts <= 12 {
                             workers[i].child = spawn_worker(&prop, &tier, seed, i, w, ncases, next, &tx);
@@ -598,8 +668,8 @@ fn check(args: &[String]) -> i32 {
         if r != Some(0) {
             let mut rng = Rng::for_case(seed, domain(&prop), *idx);
             let case = world.gen(&mut rng, thorough);
-            let case = if replay_kills_process(&prop, world.world_name(), &case, Duration::from_secs(60)) {
-                minimise_crash(world.as_ref(), &prop, case, 300)
+            let case = if replay_kills_process(&prop, world.world_name(), &case, Duration::from_secs(60), plain_flavour(*idx)) {
+                minimise_crash(world.as_ref(), &prop, case, 300, plain_flavour(*idx))
             } else {
                 case
             };
@@ -937,7 +1007,8 @@ fn replay_inner(args: &[String]) -> i32 {
 /// reported as a VIOLATION with exit code 1.
 fn replay(args: &[String]) -> i32 {
     let path = &args[0];
-    let exe = std::env::current_exe().unwrap();
+    let plain = std::fs::read_to_string(path).ok().and_then(|t| serde_json::from_str::<Value>(&t).ok()).map(|v| v["flavour"].as_str() == Some("plain")).unwrap_or(false);
+    let exe = exe_for(plain);
     let mut child = match Command::new(exe).args(["replay-inner", path]).stdin(Stdio::null()).spawn() {
         Ok(c) => c,
         Err(e) => {
